@@ -54,7 +54,7 @@ def aborted_txn(m, rng, res, conflict):
                 v = rnd_val(rng, types[c], small=False)
                 if types[c] == "s":
                     v = Val("s", ((v.v + b"g" * 180) if grow else v.v)[:(20 if kinds[c] == "b" else 230)])
-                asg.append((c, v))
+                asg.append((c, for_index(v, types[c], kinds[c])))     # (B-tree keys: short strings, integers below the stopper limit)
             if not all(v.literal_ok() for _, v in asg):
                 continue
             sql = "UPDATE %s SET %s WHERE %s;" % (name, ", ".join("%s = %s" % (names[c], v.sql()) for c, v in asg), p.sql(names))
